@@ -8,3 +8,4 @@ CONSTANTS Cases <- BloomCases
           MCTrks = {"map"}
 INVARIANTS NoFalseNegative ChainShape CountRight
 PROPERTY ChainMonotone
+CONSTRAINT BloomBound
